@@ -113,23 +113,30 @@ def judge(ctx, solver, A, cond, iterative_tol, allow_zero_col, rng, label, super
             if cb and real_superlu:
                 ctx.count("excluded_real_superlu_complex_rhs")
                 continue
-            for shape in ("v", "c1", "blk", "blkdep"):
-                k = {"v": None, "c1": 1, "blk": 3, "blkdep": 4}[shape]
+            for shape in ("v", "c1", "blk", "blkdep", "blkscaled"):
+                k = {"v": None, "c1": 1, "blk": 3, "blkdep": 4, "blkscaled": 3}[shape]
                 b = rng.standard_normal(n if k is None else (n, k))
                 if cb:
                     b = b + 1j * rng.standard_normal(b.shape)
                 bscale = 10.0 ** rng.uniform(-6, 3)     # the requested accuracy is relative: any magnitude of rhs
                 b = b * bscale
+                if shape == "blkscaled":                # load cases of very different magnitude in one block
+                    b[:, 1] *= 10.0 ** rng.uniform(-7, -4)
                 if shape == "blkdep":
                     b[:, 2] = 2 * b[:, 0] - b[:, 1]
                     b[:, 3] = 0 if allow_zero_col else -b[:, 0]
                     ctx.count("dependent_blocks")
                 x0 = None
-                if rng.random() < 0.3:
+                if rng.random() < (0.6 if shape == "blkscaled" else 0.3):
                     x0 = rng.standard_normal(b.shape)
                     if cb or cA:
                         x0 = x0 + 1j * rng.standard_normal(b.shape)
                     x0 = x0 * bscale / max(nM / np.sqrt(n), 1e-300)    # a guess of the magnitude of the solution
+                    if shape == "blkscaled":
+                        # warm start: the large load cases are (almost) solved already, the small one is not
+                        xs = np.linalg.solve(M, b)
+                        x0 = (xs * (1 + 1e-9 * rng.standard_normal(xs.shape))).astype(x0.dtype)
+                        x0[:, 1] = 0
                     ctx.count("x0_solves")
                 bk = b.copy()
                 with warnings.catch_warnings():
